@@ -28,8 +28,8 @@ def _callback(an: Analysis, f: FunctionInfo, cb: ast.AST | None) -> tuple[Functi
     """(function, arguments pre-bound with functools.partial) for a registered callback expression."""
     prog = an.prog
     bound: list[ast.AST] = []
-    if isinstance(cb, ast.Call) and an.callee(f, cb) == "functools.partial" and cb.args and not cb.keywords:
-        bound = list(cb.args[1:])
+    if isinstance(cb, ast.Call) and an.callee(f, cb) == "functools.partial" and cb.args and all(k.arg is not None for k in cb.keywords) and not any(isinstance(a, ast.Starred) for a in cb.args):
+        bound = list(cb.args[1:]) + [k for k in cb.keywords]  # positional values, then ast.keyword items (bound by name)
         cb = cb.args[0]
     if isinstance(cb, ast.Name):
         fn = _nested(f, cb.id)
@@ -94,14 +94,26 @@ def check(an: Analysis) -> None:
             closures[role] = fn
             # roles of the callback's parameters: leading ones from partial(...) / call_later's extra arguments (what they
             # denote in __call__), the last one is the object the callback is registered on
-            params = fn.param_names()
+            by_name = [b for b in bound if isinstance(b, ast.keyword)]
+            bound = [b for b in bound if not isinstance(b, ast.keyword)]
+            a_ = fn.node.args
+            params = [p.arg for p in a_.posonlyargs + a_.args]
             extra = list(n.ast.args[2:]) if role == "timeout" else []  # type: ignore[union-attr]
             given = bound + extra
             roles: dict[str, set[str]] = {}
+
+            def roles_of(a: ast.AST) -> set[str]:
+                return {r_ for leaf, r_ in ((TASK, "task"), (FUT, "future"), (TIMER, "timer")) if leaf in d.origins(a)}
+
             for pname, a in zip(params, given):
-                roles[pname] = {r_ for leaf, r_ in ((TASK, "task"), (FUT, "future"), (TIMER, "timer")) if leaf in d.origins(a)}
-            if role != "timeout" and len(params) == len(given) + 1:
-                roles[params[-1]] = {"task" if role == "completion" else "future"}
+                roles[pname] = roles_of(a)
+            for k_ in by_name:
+                if k_.arg in roles or k_.arg not in params + [p.arg for p in a_.kwonlyargs] or k_.arg in [p.arg for p in a_.posonlyargs]:
+                    ob.fail(f, n.ast, f"the {role} callback cannot be called as registered (`{k_.arg}` bound by name)")
+                roles[k_.arg] = roles_of(k_.value)  # type: ignore[index]
+            rest = [p for p in params[len(given) :] if p not in roles]
+            if role != "timeout" and len(rest) == 1:
+                roles[rest[0]] = {"task" if role == "completion" else "future"}
             param_roles[fn.qualname] = roles
         w = g.ordered(lambda x, n=n: x is n, lambda x: x in awaits)
         if w is not None:
